@@ -1,6 +1,6 @@
 (* C11 — hard keywords are reserved, soft keywords are contextual; literal / token-kind matching. *)
 From Coq Require Import List String NArith ZArith Bool Arith.
-From Pegen Require Import Base.StrUtil Base.Values Runtime.Tokenizer Sem.Peg Gen.Gen Runtime.Exec Proofs.GenProofs.
+From Pegen Require Import Base.StrUtil Base.Values Runtime.Tokenizer Sem.Peg Gen.Gen Runtime.Exec Proofs.GenProofs Grammar.Ast Analysis.Literals.
 Import ListNotations.
 Open Scope string_scope.
 
@@ -35,6 +35,28 @@ Print Assumptions C11_literal_exact.
 Theorem C11_tables_are_sorted_sets : forall l x, In x (sort_set l) <-> In x l.
 Proof. exact sort_set_In. Qed.
 Print Assumptions C11_tables_are_sorted_sets.
+
+(* "A word that appears ANYWHERE in the grammar as a single-quoted identifier-like literal": the table
+   [hard_keywords g] (a plain traversal, Analysis/Literals.v) contains exactly the unquoted texts of
+   the single-quoted identifier-like literals occurring at any depth of any rule; likewise
+   [soft_keywords g] for double-quoted ones.  The check compares them with the KEYWORDS /
+   SOFT_KEYWORDS tables the REAL generator emits, on every explored grammar. *)
+Theorem C11_keyword_tables_are_exactly_the_quoted_words :
+  forall (g : grammar) (single : bool) (kw : string),
+  In kw (if single then hard_keywords g else soft_keywords g) <->
+  exists raw r, In r (rules g) /\ occ_rhs raw (rrhs r) /\ is_kw single raw = true /\ kw = strip_quotes raw.
+Proof.
+  intros g single kw.
+  assert (H : forall b, In kw (sort_set (map strip_quotes (filter (is_kw b) (grammar_lits g)))) <->
+                        exists raw r, In r (rules g) /\ occ_rhs raw (rrhs r) /\ is_kw b raw = true /\ kw = strip_quotes raw).
+  { intros b. rewrite sort_set_In, in_map_iff. split.
+    - intros (raw & <- & Hin). apply filter_In in Hin as [Hin Hk]. apply grammar_lits_spec in Hin as (r & Hr & Ho).
+      exists raw, r. auto.
+    - intros (raw & r & Hr & Ho & Hk & ->). exists raw. split; [reflexivity|]. apply filter_In. split; [|exact Hk].
+      apply grammar_lits_spec. eauto. }
+  destruct single; apply H.
+Qed.
+Print Assumptions C11_keyword_tables_are_exactly_the_quoted_words.
 
 (* REFUTED on the unchanged tree (recorded findings): expect() conflates literal texts and
    token-kind names -- an identifier spelled NEWLINE is accepted where a NEWLINE token is required,
